@@ -16,6 +16,8 @@ fn main() {
     match argv[1].as_str() {
         "forget" => drivers::forget::run(&a),
         "probe" => drivers::probe::run(&a),
+        "chunker" => drivers::chunker::run(&a),
+        "config" => drivers::config::run(&a),
         "backend" => drivers::backend::run(&a),
         "index" => drivers::index::run(&a),
         "repo" => drivers::repo::run(&a),
